@@ -110,24 +110,36 @@ def loop_paths(ctx, heap=None, collections=None, havoc_on_call=True, bind=None, 
     # body finds at an arbitrary iteration, i.e. unknown unless the rule seeds it.
     body = f.body()
     pre = body[: body.index(loop)] if loop in body else []
+    starts = [st]
     if pre:
         pre_outs = [(s0, ex) for s0, ex in I.run_block(f, pre, st=st) if ex is None]
-        if len(pre_outs) != 1:
-            raise AnalysisError(f"simulate() prologue has {len(pre_outs)} normal paths (expected 1)")
-        env = pre_outs[0][0].env
-        st = State()
-        st.env = dict(env)
-    st.heap[("self", "time")] = Poly.sym("self.time")
-    st.bounds["self.time"] = (0, None)
-    outs = I.run_block(f, loop.body, st=st, heap=heap)
+        if not pre_outs:
+            raise AnalysisError("simulate() prologue has no normal path")
+        # the prologue may branch on the options (e.g. on initialize_state_info): the loop body is analysed once per distinct
+        # set of locals it can start with
+        starts, seen = [], set()
+        for s0, _ex in pre_outs:
+            key0 = tuple(sorted((k, repr(v)) for k, v in s0.env.items()))
+            if key0 in seen:
+                continue
+            seen.add(key0)
+            s_new = State()
+            s_new.env = dict(s0.env)
+            starts.append(s_new)
+        if len(starts) > 8:
+            raise AnalysisError(f"simulate() prologue has {len(starts)} distinct normal paths")
     res = []
-    for s1, ex in outs:
-        ph = []
-        for ev in s1.trace:
-            c = classify(ctx, ev)
-            if c:
-                ph.append((c, ev))
-        res.append({"state": s1, "exit": ex, "trace": s1.trace, "phases": ph, "interp": I})
+    for st in starts:
+        st.heap[("self", "time")] = Poly.sym("self.time")
+        st.bounds["self.time"] = (0, None)
+        outs = I.run_block(f, loop.body, st=st, heap=heap)
+        for s1, ex in outs:
+            ph = []
+            for ev in s1.trace:
+                c = classify(ctx, ev)
+                if c:
+                    ph.append((c, ev))
+            res.append({"state": s1, "exit": ex, "trace": s1.trace, "phases": ph, "interp": I})
     if key is not None:
         _CACHE[ck] = res
     return res
